@@ -19,6 +19,7 @@ from plain import gen_ops, make_sd
 RULE = ("histories of 2-10 operations mixing {seeds, candidates, sets queries on random nodes} with {single expansion, "
         "bfs, dfs, minimal-space (+skip_ignored), target, attractor-seed, block with/without source shortcuts, source-SCC, "
         "skip_to_minimal, skip_remaining, reclaim, pickle}; after each operation all cached data of all nodes is judged; "
+        "35% directed scenarios (partial expansion, data on stubs, one operation that gives successors, look again) on union / chain networks; "
         "non-trivial = a node that had cached data while unexpanded later got successors; distinct by case hash")
 ASSUMPTIONS = ["as C01/C08/C12"]
 CASE_TIMEOUT = {"quick": 40, "thorough": 120}
